@@ -74,7 +74,8 @@ func (c *formatterClass_) MakeWithMaximum(maximum int) FormatterLike {
 
 type formatter_ struct {
 	class_   FormatterClassLike
-	depth_   int
+	depth_   int // The current level of indentation.
+	level_   int // The current level of nesting (also of inline sequences).
 	maximum_ int
 	result_  sts.Builder
 }
@@ -98,6 +99,7 @@ func (v *formatter_) GetMaximum() int {
 func (v *formatter_) FormatValue(value any) (source string) {
 	// Start afresh, also when an earlier call failed midway.
 	v.depth_ = 0
+	v.level_ = 0
 	v.result_.Reset()
 	v.formatValue(value)
 	v.appendNewline()
@@ -124,7 +126,7 @@ func (v *formatter_) formatArray(array any) {
 	var reflected = ref.ValueOf(array)
 	var size = reflected.Len()
 	switch {
-	case v.depth_ == v.maximum_:
+	case v.level_ == v.maximum_:
 		// Truncate the recursion.
 		v.appendString("...")
 	case size == 0:
@@ -132,15 +134,19 @@ func (v *formatter_) formatArray(array any) {
 		v.appendString(" ")
 	case size == 1:
 		var value = reflected.Index(0).Interface()
+		v.level_++
 		v.formatValue(value)
+		v.level_--
 	default:
 		// This is a multiline sequence of values.
 		v.depth_++
+		v.level_++
 		for i := 0; i < size; i++ {
 			v.appendNewline()
 			var value = reflected.Index(i).Interface()
 			v.formatValue(value)
 		}
+		v.level_--
 		v.depth_--
 		v.appendNewline()
 	}
@@ -157,7 +163,7 @@ func (v *formatter_) formatAssociations(associations any) {
 	var iterator = sequence.MethodByName("GetIterator").Call([]ref.Value{})[0]
 	var size = sequence.MethodByName("GetSize").Call([]ref.Value{})[0].Interface()
 	switch {
-	case v.depth_ == v.maximum_:
+	case v.level_ == v.maximum_:
 		// Truncate the recursion.
 		v.appendString("...")
 	case size == 0:
@@ -165,15 +171,19 @@ func (v *formatter_) formatAssociations(associations any) {
 		v.appendString(":")
 	case size == 1:
 		var value = iterator.MethodByName("GetNext").Call([]ref.Value{})[0].Interface()
+		v.level_++
 		v.formatValue(value)
+		v.level_--
 	default:
 		// This is a multiline sequence of associations.
 		v.depth_++
+		v.level_++
 		for iterator.MethodByName("HasNext").Call([]ref.Value{})[0].Interface().(bool) {
 			v.appendNewline()
 			var value = iterator.MethodByName("GetNext").Call([]ref.Value{})[0].Interface()
 			v.formatValue(value)
 		}
+		v.level_--
 		v.depth_--
 		v.appendNewline()
 	}
@@ -303,7 +313,7 @@ func (v *formatter_) formatMap(map_ any) {
 	var size = reflected.Len()
 	var keys = reflected.MapKeys()
 	switch {
-	case v.depth_ == v.maximum_:
+	case v.level_ == v.maximum_:
 		// Truncate the recursion.
 		v.appendString("...")
 	case size == 0:
@@ -312,16 +322,20 @@ func (v *formatter_) formatMap(map_ any) {
 	case size == 1:
 		var key = keys[0].Interface()
 		var value = reflected.MapIndex(keys[0]).Interface()
+		v.level_++
 		v.formatAssociation(key, value)
+		v.level_--
 	default:
 		// This is a multiline map of associations.
 		v.depth_++
+		v.level_++
 		for i := 0; i < size; i++ {
 			v.appendNewline()
 			var key = keys[i].Interface()
 			var value = reflected.MapIndex(keys[i]).Interface()
 			v.formatAssociation(key, value)
 		}
+		v.level_--
 		v.depth_--
 		v.appendNewline()
 	}
@@ -420,7 +434,7 @@ func (v *formatter_) formatValues(values any) {
 	var iterator = sequence.MethodByName("GetIterator").Call([]ref.Value{})[0]
 	var size = sequence.MethodByName("GetSize").Call([]ref.Value{})[0].Interface()
 	switch {
-	case v.depth_ == v.maximum_:
+	case v.level_ == v.maximum_:
 		// Truncate the recursion.
 		v.appendString("...")
 	case size == 0:
@@ -428,15 +442,19 @@ func (v *formatter_) formatValues(values any) {
 		v.appendString(" ")
 	case size == 1:
 		var value = iterator.MethodByName("GetNext").Call([]ref.Value{})[0].Interface()
+		v.level_++
 		v.formatValue(value)
+		v.level_--
 	default:
 		// This is a multiline sequence of values.
 		v.depth_++
+		v.level_++
 		for iterator.MethodByName("HasNext").Call([]ref.Value{})[0].Interface().(bool) {
 			v.appendNewline()
 			var value = iterator.MethodByName("GetNext").Call([]ref.Value{})[0].Interface()
 			v.formatValue(value)
 		}
+		v.level_--
 		v.depth_--
 		v.appendNewline()
 	}
